@@ -41,6 +41,7 @@ var sections = []sectionDef{
 	{"phpser", func(q bool) int { return pick(q, 8, 32) }, runPhpSer},
 	{"pwire", func(q bool) int { return pick(q, 8, 32) }, runPwire},
 	{"pwobj", func(q bool) int { return pick(q, 2, 8) }, runPwObj},
+	{"built", func(q bool) int { return pick(q, 2, 8) }, runBuilt},
 }
 
 func pick(q bool, a, b int) int {
